@@ -249,7 +249,9 @@ Definition r_code (c : cfg) (robj : mstate -> result (pv * mstate)) (save : bool
   let '(st0, i) := reserve save (ph_code c) st l in
   let l0 := inp st0 in
   do2 (argcount, l1) <- w_int c (vge c [2; 3]) (vge c [1; 3]) l0;
-  do2 (posonly, l2) <- (if vge c [3; 8] then (if zmem (magic_int c) [3400; 3401; 3410; 3411] then Ok (0, l1) else read_s32 c l1) else Ok (-1, l1));
+  (* co_posonlyargcount is stored from magic 3410 on (CPython's registry: "3.8a1 3410 (PEP570 Python Positional-Only Parameters)"); the two
+     earlier 3.8 pre-release magics have the 3.7 layout *)
+  do2 (posonly, l2) <- (if vge c [3; 8] then (if zmem (magic_int c) [3400; 3401] then Ok (0, l1) else read_s32 c l1) else Ok (-1, l1));
   do2 (kwonly, l3) <- (if vge c [3; 0] then read_s32 c l2 else Ok (0, l2));
   do2 (nlocals, l4) <- (if vge c [3; 11] then Ok (0, l3) else w_int c (vge c [2; 3]) (vge c [1; 3]) l3);
   do2 (stacksize, l5) <- w_int c (vge c [2; 3]) (vge c [1; 5]) l4;
